@@ -181,6 +181,20 @@ def gen_case(rng, index, tier):
     L, trashes, entries = trashworld.make(rng, index, n_entries=n, names=names,
                                           dates=['2005-05-05T05:05:05'],
                                           kinds=kinds)
+    # hand-edited / foreign .trashinfo files with further Path= lines after
+    # the first: the first one is the entry's location (for every command)
+    for e in entries:
+        if rng.random() < 0.08:
+            ik = trashworld.pair_keys(e)[0]
+            decoy = 'elsewhere/' + rng.choice(BASE_NAMES)
+            for nd in L.nodes:
+                if nd['p'] == ik and isinstance(nd.get('c'), str) and \
+                        nd['c'].startswith('[Trash Info]\nPath='):
+                    lines = nd['c'].split('\n')
+                    at = rng.choice([2, len(lines) - 1])
+                    lines.insert(at, 'Path=' + decoy)
+                    nd['c'] = '\n'.join(lines)
+                    e['decoy_path'] = decoy
     fulls = ['/' + e['loc'] for e in entries]
     pat, pclass = make_pattern(rng, [os.path.basename(e['loc']) for e in entries], fulls)
     case = L.desc()
